@@ -211,7 +211,7 @@ def spd_case(draw):
     bw = draw(st.sampled_from([3, 2, 4, 6, 5, 1]))
     L0 = [[draw(uf) for _ in range(bw)] for _ in range(n)]
     return dict(n=n, bw=bw, L0=L0, shift=draw(st.sampled_from([1e-3, 0.1, 1.0, 10.0])), b=[draw(uf) for _ in range(n)],
-                scale=draw(st.sampled_from([1.0, 1e6, 1e-6])))
+                scale=draw(st.sampled_from([1.0, 1e6, 1e-6, 1e150, 1e306, 1e-150])))      # any magnitude a double can hold
 
 
 def dense_from(case):
@@ -253,7 +253,7 @@ def spd_body(case):
               lambda: dict(maxdev=float(np.abs(Ld.dot(Ld.T) - A).max())))
         check(np.array_equal(l, keep), 'cholesky:input-modified')
     bvec = np.zeros(n + bw)
-    bvec[:n] = case['b']
+    bvec[:n] = np.array(case['b']) * (case['scale'] if abs(math.log10(case['scale'])) > 100 else 1.0)      # keeps the solution of order one at extreme scales
     x = call(cholesky_solve, L, bvec.copy())
     with judge('cholesky_solve'):
         x = np.asarray(x, dtype='f8')
